@@ -218,6 +218,33 @@ def outcome(text, props):
     return None
 
 
+def other_routes_accept(text, props):
+    """Names of the other documented source routes that return a database for this (malformed) text."""
+    import os
+    import tempfile
+    from pathlib import Path
+    from pydbml import PyDBML
+    kw = {'allow_properties': True} if props else {}
+    fd, path = tempfile.mkstemp(prefix='pbt-c07-', suffix='.dbml')
+    accepted = []
+    try:
+        with os.fdopen(fd, 'w', encoding='utf8', newline='') as fh:
+            fh.write(text)
+        routes = [('PyDBML(str)', lambda: PyDBML(text, **kw)), ('PyDBML(Path)', lambda: PyDBML(Path(path), **kw))]
+        if not props:
+            routes += [('parse_file(str)', lambda: PyDBML.parse_file(path)), ('parse_file(Path)', lambda: PyDBML.parse_file(Path(path)))]
+        for name, thunk in routes:
+            try:
+                r = thunk()
+            except Exception:  # noqa
+                continue
+            if type(r).__name__ == 'Database':
+                accepted.append(name)
+    finally:
+        os.unlink(path)
+    return accepted
+
+
 PROBE = 'Table probe_after_reject {\n  id int\n}\n'
 _PROBE_EXPECT = {}
 
@@ -250,11 +277,16 @@ def judge(kind, text, props, case):
     if not isinstance(e, (pp.ParseBaseException, SyntaxError)):
         return [Viol(f'c07:not-a-syntax-error:{kind}:{type(e).__name__}',
                      f'malformed document (fault: {kind}) passed the syntax phase: {type(e).__name__}: {str(e)[:150]}', case, size=len(text))]
+    acc = other_routes_accept(text, props) if text else []
+    if acc:
+        return [Viol(f'c07:accepted-by-route:{acc[0]}', f'malformed document (fault: {kind}) is rejected by PyDBML.parse but parsed into a database by {acc}', case, size=len(text))]
     return []
 
 
 @st.composite
 def cases(draw, feats, sizes):
+    if draw(st.booleans()):
+        feats = frozenset(feats - {'props'})      # half of the documents are parsed with the default options
     s, text, lines = draw(gen.documents(feats, sizes, min_tables=1))
     lines = draw(with_comments(lines))
     text = render(lines, '\n', True)
